@@ -39,6 +39,8 @@ type sourceFragment struct {
 	program            *analysis.ProgramInfo
 	simpleCheckpoint   factstore.FactStoreWithRemove
 	temporalCheckpoint factstore.TemporalFactStore
+	// The predicates that were known before this fragment was pushed.
+	knownCheckpoint map[ast.PredicateSym]ast.Decl
 }
 
 // Interpreter is an interactive interpreter.
@@ -410,7 +412,11 @@ func (i *Interpreter) Preload(units []parse.SourceUnit, store factstore.FactStor
 
 func (i *Interpreter) pushSourceFragment(pathset string, units []parse.SourceUnit, programInfo *analysis.ProgramInfo) {
 	i.src = append(i.src, pathset)
-	i.sourceFragments[pathset] = &sourceFragment{units, programInfo, i.simpleStore, i.temporalStore}
+	knownCheckpoint := make(map[ast.PredicateSym]ast.Decl, len(i.knownPredicates))
+	for sym, decl := range i.knownPredicates {
+		knownCheckpoint[sym] = decl
+	}
+	i.sourceFragments[pathset] = &sourceFragment{units, programInfo, i.simpleStore, i.temporalStore, knownCheckpoint}
 	for _, decl := range programInfo.Decls {
 		i.knownPredicates[decl.DeclaredAtom.Predicate] = *decl
 	}
@@ -451,9 +457,9 @@ func (i *Interpreter) popSourceFragment() *sourceFragment {
 	f := i.sourceFragments[path]
 	i.src = i.src[:l-1]
 	delete(i.sourceFragments, path)
-	for _, decl := range f.program.Decls {
-		delete(i.knownPredicates, decl.DeclaredAtom.Predicate)
-	}
+	// The program's declarations include those of earlier fragments, so the
+	// known predicates are restored rather than deleted one by one.
+	i.knownPredicates = f.knownCheckpoint
 	i.simpleStore = f.simpleCheckpoint
 	i.temporalStore = f.temporalCheckpoint
 	i.updateCombinedStore()
